@@ -28,11 +28,11 @@ Definition C16_full (q : quirks) : Prop := C16_returns_spec q /\ C16_no_panic q.
    unchanged by the SPEC), the callback was shown [seen] each time, and a replaced root is accepted
    by the root's own prototype.  Holds for the repaired model. *)
 Theorem C16_focus :
-  forall ltb mklink f cp,
+  forall ltb mklink f cp fault,
     (forall x v, owf x -> f x = Some v -> wf_dm v = true) ->
   forall fuel st root p t res st' log,
     raw t = root -> valid st t -> wfx t ->
-    focused_transform ltb mklink q_fixed f cp fuel st root p = Ok (res, (st', log)) ->
+    focused_transform ltb mklink q_fixed f cp fault fuel st root p = Ok (res, (st', log)) ->
     match xupdate ltb mklink f cp st t p with
     | XOk (Some t') seen =>
         res = raw t' /\ extends st st' /\
@@ -45,13 +45,14 @@ Theorem C16_focus :
 Proof. exact focus_ok. Qed.
 Print Assumptions C16_focus.
 
-(* the errors of the transform are the errors of the SPEC (root refusals aside) *)
+(* the errors of the transform are the errors of the SPEC (root refusals aside; a refused store -
+   EStore - is the environment's failure and outside the SPEC) *)
 Theorem C16_focus_errors :
-  forall ltb mklink f cp,
+  forall ltb mklink f cp fault,
     (forall x v, owf x -> f x = Some v -> wf_dm v = true) ->
   forall fuel st root p t e,
     raw t = root -> valid st t -> wfx t ->
-    focused_transform ltb mklink q_fixed f cp fuel st root p = Err e -> e <> EFuel ->
+    focused_transform ltb mklink q_fixed f cp fault fuel st root p = Err e -> e <> EFuel -> e <> EStore ->
     match xupdate ltb mklink f cp st t p with
     | XOk (Some t') _ => p = [] /\ root_accepts root (raw t') = false /\ (e = EWrongKind \/ e = EOther)
     | XOk None _ => p = [] /\ e = EPanic
@@ -67,17 +68,17 @@ Print Assumptions C16_full_fixed.
 
 (* st ⊆ st' for every quirk setting: no block is lost or re-linked, untouched blocks keep their links *)
 Theorem C16_store_monotone :
-  forall ltb mklink q f cp fuel st root p res st' log,
-    focused_transform ltb mklink q f cp fuel st root p = Ok (res, (st', log)) -> extends st st'.
+  forall ltb mklink q f cp fault fuel st root p res st' log,
+    focused_transform ltb mklink q f cp fault fuel st root p = Ok (res, (st', log)) -> extends st st'.
 Proof. exact focus_mono. Qed.
 Print Assumptions C16_store_monotone.
 
 Theorem C16_callback_sees :
-  forall ltb mklink f cp,
+  forall ltb mklink f cp fault,
     (forall x v, owf x -> f x = Some v -> wf_dm v = true) ->
   forall fuel st root p t res st' log,
     raw t = root -> valid st t -> wfx t ->
-    focused_transform ltb mklink q_fixed f cp fuel st root p = Ok (res, (st', log)) ->
+    focused_transform ltb mklink q_fixed f cp fault fuel st root p = Ok (res, (st', log)) ->
     xupdate ltb mklink f cp st t p <> XNeedLoad ->
     log <> [] /\ Forall (fun x => x = option_map raw (xfocus (Some t) p)) log.
 Proof. exact focus_callback_sees. Qed.
@@ -86,10 +87,10 @@ Print Assumptions C16_callback_sees.
 (* identity callback at an existing target: the very same root comes back (also across links, when
    the store was filled through the link system) *)
 Theorem C16_identity :
-  forall ltb mklink cp fuel st root p t tx res st' log,
+  forall ltb mklink cp fault fuel st root p t tx res st' log,
     raw t = root -> valid st t -> wfx t -> store_wf ltb mklink st ->
     xfocus (Some t) p = Some tx ->
-    focused_transform ltb mklink q_fixed fid cp fuel st root p = Ok (res, (st', log)) ->
+    focused_transform ltb mklink q_fixed fid cp fault fuel st root p = Ok (res, (st', log)) ->
     res = root.
 Proof. exact focus_identity. Qed.
 Print Assumptions C16_identity.
@@ -104,16 +105,25 @@ Theorem C16_sequence :
 Proof. exact focus_seq. Qed.
 Print Assumptions C16_sequence.
 
+(* runs in which transforms fail (path errors, a store the codec or the storage refuses): the failed
+   transform leaves root and store as they were; the run is the run of the transforms that succeeded *)
+Theorem C16_failed_steps_are_noops :
+  forall ltb mklink fuel steps st root,
+    mseq ltb mklink fuel (survivors ltb mklink fuel steps st root) st root
+    = Ok (mseq_tol ltb mklink fuel steps st root).
+Proof. exact mseq_tol_survivors. Qed.
+Print Assumptions C16_failed_steps_are_noops.
+
 (* the pinned tree (any quirk setting): when the callback never removes, no index is negative and
    "-" is last unless parents may be created, a run that does not panic is a run of the repaired
    model - to which C16_focus applies *)
 Theorem C16_focus_partial :
-  forall ltb mklink q f cp,
+  forall ltb mklink q f cp fault,
     (forall x, f x <> None) ->
   forall fuel st root p r,
     path_ok cp p ->
-    focused_transform ltb mklink q f cp fuel st root p = Ok r ->
-    focused_transform ltb mklink q_fixed f cp fuel st root p = Ok r.
+    focused_transform ltb mklink q f cp fault fuel st root p = Ok r ->
+    focused_transform ltb mklink q_fixed f cp fault fuel st root p = Ok r.
 Proof. exact focus_quirks_irrelevant. Qed.
 Print Assumptions C16_focus_partial.
 
@@ -176,13 +186,13 @@ Print Assumptions C16_walk_relink_refuted.
 (* the hypotheses are satisfiable (a link is crossed, the final store is coherent) *)
 Theorem C16_examples :
   (raw ex_t = ex_root /\ valid ex_st ex_t /\ wfx ex_t /\
-   focused_transform rfc_ltb ex_link q_fixed (fconst (DInt 2)) false 10 ex_st ex_root ex_path
+   focused_transform rfc_ltb ex_link q_fixed (fconst (DInt 2)) false false 10 ex_st ex_root ex_path
    = Ok (DMap [(sega, DLink [2%N])], (ex_st', [Some (DInt 1)])) /\
    coherent ex_link ex_st' /\
    (exists t', xupdate rfc_ltb ex_link (fconst (DInt 2)) false ex_st ex_t ex_path = XOk (Some t') (Some (DInt 1))
                /\ valid ex_st' t')) /\
   (store_wf rfc_ltb ex_link ex_st /\ xfocus (Some ex_t) ex_path = Some (XLeaf (DInt 1)) /\
-   focused_transform rfc_ltb ex_link q_fixed fid false 10 ex_st ex_root ex_path
+   focused_transform rfc_ltb ex_link q_fixed fid false false 10 ex_st ex_root ex_path
    = Ok (ex_root, (ex_st, [Some (DInt 1)]))).
 Proof. exact (conj focus_ok_satisfiable focus_identity_satisfiable). Qed.
 Print Assumptions C16_examples.
